@@ -36,6 +36,7 @@ import copy
 import io
 import itertools
 import json
+import math
 import multiprocessing
 import random
 import warnings
@@ -460,8 +461,8 @@ def histories_for_case(case: dict, rng: random.Random, scheme: str, idx: int = 0
                          for j, o in enumerate(seq)]
                 traces.append(fault_history(tdesc, order, plan, variant, items, v))
         # the same description in a history whose construct_dag() block is left through an exception, followed by calls outside
-        # any block (variant, calling convention and cuts rotate with the case index and the order)
-        if scheme == "full" or oi % 3 == 2:
+        # any block (variant, calling convention and cuts rotate with the case index; the listing order alternates with it)
+        if oi == idx % math.factorial(n):
             outs_c = [o for o in sorted(cuts) if cuts[o]]
             if outs_c:
                 v = idx + oi
@@ -595,7 +596,7 @@ def abort_history(tdesc: dict, order: tuple, variant: str, items: list[tuple], k
         after = make_pair(d2)[0] if k % 2 else lpl
     evs += block_history(after, [(o0, kw0, m[2], 2)], "off", k + 1)
     evs += block_history(lpl, [(o0, kw0, m[3])], "in" if k % 4 < 2 else "out", k + 2)
-    for j, (o, kw) in enumerate(items[1:3]):
+    for j, (o, kw) in enumerate(items[1:2]):
         evs += block_history(after, [(o, kw, m[j % 4])], "off", k + 3 + j)
     tr = {"desc": t2, "ev": evs, "order": list(order), "abort": variant}
     if variant == "fault":
@@ -981,8 +982,8 @@ def run(ctx: Ctx) -> None:
                ucache="TRUE", n=2, rich="FALSE", maxev=2, allkw="FALSE", maxh=1)
             # a user cache of another kind than the one a construct_dag() block keeps (lru): nothing created before the block may
             # take part in its graph, every single-step corruption of the complete graph is rejected however full the cache is;
-            # quick: one part in four of the description universe, thorough: all
-            mc("LBSpec N=2, valid cuts, user cache of a kind the block replaces (lru)", "b2l", 2, heap="2g", nshards=4, shards=[1],
+            # quick: one part in eight of the description universe (as for the fault plans), thorough: all
+            mc("LBSpec N=2, valid cuts, user cache of a kind the block replaces (lru)", "b2l", 2, heap="2g", nshards=8, shards=[5],
                modes='{"call"}', ucache="TRUE", ckinds='{"lru"}', n=2, rich="FALSE", maxev=2, allkw="FALSE", maxh=1)
             # fault plans (FaultChoice: each function raising once / always, all raising once): evaluate() calls that raise
             # followed by further ones; quick: one part in eight of the description universe (DescHash = 5 mod 8: a function of
